@@ -79,6 +79,11 @@ func c01Decode(cfg int) c01Case {
 		ages = append(ages, 3600+int64(dl))
 	}
 	set := map[int64]bool{0: true, 1: true, 3600: true, 365 * 86400: true, 60 * 365 * 86400: true}
+	if ag != "" && ag != "0" || ma != "" && len(ma) > 4 {
+		// sums of huge terms: a clamped Age or lifetime plus a resident time of centuries
+		set[150*365*86400] = true
+		set[280*365*86400] = true
+	}
 	for _, l := range ls {
 		for _, a := range ages {
 			for _, d := range []int64{-1, 0, 1} {
